@@ -100,7 +100,8 @@ def scripts(draw):
     n_adv = draw(st.integers(1, 5))
 
     def adversarial():
-        return ['adv', draw(st.sampled_from(LETTERS))]
+        # 'glue': the message shares a read with whatever the peer sends next (chunking x adversarial messages)
+        return ['adv', draw(st.sampled_from(LETTERS))] + (['glue'] if draw(st.integers(0, 4)) == 0 else [])
     if phase == 'contact':
         if draw(st.booleans()):
             steps.append(['ch', draw(st.sampled_from(['bad-magic', 'version-3', 'version-5']))] + (['joined'] if draw(st.booleans()) else []))
@@ -189,6 +190,7 @@ class Peer(object):
         self.sent_ch = False
         self.pre_contact = b''
         self.sent_init = False
+        self.held = b''          # octets held back to share a read with the next message
 
     def pump(self):
         ''' Deliver everything and let the endpoint run to quiescence; collect its output. '''
@@ -206,8 +208,10 @@ class Peer(object):
         from vlib import ref9174 as r
         if self.world.peer_sock.tx.reader_closed or self.world.peer_sock.closed:
             return False
+        data = self.held + r.encode(msg)
+        self.held = b''
         try:
-            self.world.peer_send(r.encode(msg))
+            self.world.peer_send(data)
         except OSError:
             return False
         if msg['t'] == 'XFER_SEGMENT':
@@ -334,6 +338,14 @@ def execute(case):
             else:
                 letter_eff = letter
             in_conn = hdl._in_conn
+            if len(step) > 2 and step[2] == 'glue' and early is None:
+                # held back: it reaches the endpoint in one read with the peer's next message; only the global clauses
+                # (no escape, no mismatched data, own transfers unaffected) are judged for it
+                peer.held += r.encode(msg)
+                if msg['t'] == 'XFER_SEGMENT':
+                    peer.sent_segments.append(msg)
+                out.label('glued-to-next')
+                continue
             if not peer.send(msg):
                 continue
             new = peer.pump()
